@@ -947,16 +947,22 @@ fn scales_on(spdc: &SPDC, pts: &[(f64, f64)], divs: usize) -> Vec<f64> {
   pts.iter().map(|&(a, b)| scale_at(spdc, a, b, divs)).collect()
 }
 
-fn amplification(scales: &[f64], f: &[Complex<f64>]) -> f64 {
+fn sum_sq(scales: &[f64]) -> f64 {
   let mut a = 0.0;
   for s in scales {
     a += s * s;
   }
+  a
+}
+fn norm_sq(f: &[Complex<f64>]) -> f64 {
   let mut b = 0.0;
   for z in f {
     b += z.re * z.re + z.im * z.im;
   }
-  a / b
+  b
+}
+fn amplification(scales: &[f64], f: &[Complex<f64>]) -> f64 {
+  sum_sq(scales) / norm_sq(f)
 }
 
 fn triples_c(zs: &[Complex<f64>], scs: &[f64]) -> String {
@@ -1130,7 +1136,9 @@ fn c09_grid(ctx: &mut Ctx, p: &Prim, spdc: &SPDC) {
   let scs = scales_on(spdc, &fpts, divs);
   let s2 = spdc.clone();
   let arr = guard(move || s2.joint_spectrum(integ(divs)).jsa_range(rg.freq()));
-  let amp = arr.as_ref().map(|a| amplification(&scs, a));
+  let sw: Vec<(f64, f64)> = fpts.iter().map(|&(a, b)| (b, a)).collect();
+  let scs_sw = scales_on(spdc, &sw, divs);
+  let amp = arr.as_ref().map(|a| (sum_sq(&scs) + sum_sq(&scs_sw)) / norm_sq(a));
   let delays = gen_delays(&mut ctx.rng, td.unwrap_or(0.0));
   let s2 = spdc.clone();
   let d2 = delays.clone();
@@ -1139,7 +1147,7 @@ fn c09_grid(ctx: &mut Ctx, p: &Prim, spdc: &SPDC) {
     "cmpg_hom_series",
     &format!("{} | {} {} | {}", stp, rg.tokens(), divs, fls(&delays)),
     &match (r, amp) {
-      (Some(v), Some(a)) => triples_r(&v, &vec![a; v.len()]),
+      (Some(v), Some(a)) => triples_r(&v, &v.iter().map(|r| a * (1.0 + (1.0 - 2.0 * r).abs())).collect::<Vec<_>>()),
       _ => "PANIC".into(),
     },
   );
@@ -1149,7 +1157,7 @@ fn c09_grid(ctx: &mut Ctx, p: &Prim, spdc: &SPDC) {
     "cmpg_hom_vis",
     &format!("{} | {} {}", stp, rg.tokens(), divs),
     &match (r, amp) {
-      (Some((_, v)), Some(a)) => format!("{} {} {}", fl(v), fl(0.0), fl(2.0 * a)),
+      (Some((_, v)), Some(a)) => format!("{} {} {}", fl(v), fl(0.0), fl(2.0 * a * (1.0 + v.abs()))),
       _ => "PANIC".into(),
     },
   );
@@ -1171,7 +1179,14 @@ fn c10_grid(ctx: &mut Ctx, p: &Prim, spdc: &SPDC) {
   let scs = scales_on(spdc, &fpts, divs);
   let s2 = spdc.clone();
   let arr = guard(move || s2.joint_spectrum(integ(divs)).jsa_range(rg.freq()));
-  let amp = arr.as_ref().map(|a| amplification(&scs, a));
+  let amp = arr.as_ref().map(|a| {
+    let f = rg.freq().as_steps();
+    let grid = |x: (spdcalc::Frequency, spdcalc::Frequency, usize), y: (spdcalc::Frequency, spdcalc::Frequency, usize)| -> Vec<(f64, f64)> {
+      FrequencySpace::new(x, y).as_steps().into_iter().map(|(a, b)| (a.value_unsafe, b.value_unsafe)).collect()
+    };
+    let b = (sum_sq(&scs) + sum_sq(&scales_on(spdc, &grid(f.1, f.1), divs)) + sum_sq(&scales_on(spdc, &grid(f.0, f.0), divs))) / norm_sq(a);
+    b * b
+  });
   let delays = gen_delays(&mut ctx.rng, 0.0);
   let s2 = spdc.clone();
   let d2 = delays.clone();
@@ -1183,7 +1198,7 @@ fn c10_grid(ctx: &mut Ctx, p: &Prim, spdc: &SPDC) {
     &match (r, amp) {
       (Some(h), Some(a)) => {
         let all: Vec<f64> = h.ss.iter().chain(h.ii.iter()).chain(h.si.iter()).cloned().collect();
-        triples_r(&all, &vec![2.0 * a; all.len()])
+        triples_r(&all, &all.iter().map(|v| a + v.abs()).collect::<Vec<_>>())
       }
       _ => "PANIC".into(),
     },
@@ -1194,7 +1209,7 @@ fn c10_grid(ctx: &mut Ctx, p: &Prim, spdc: &SPDC) {
     "cmpg_hom2_vis",
     &format!("{} | {} {}", stp, rg.tokens(), divs),
     &match (r, amp) {
-      (Some(h), Some(a)) => triples_r(&[h.ss.1, h.ii.1, h.si.1], &[4.0 * a; 3]),
+      (Some(h), Some(a)) => triples_r(&[h.ss.1, h.ii.1, h.si.1], &[2.0 * (a + h.ss.1.abs()), 2.0 * (a + h.ii.1.abs()), 2.0 * (a + h.si.1.abs())]),
       _ => "PANIC".into(),
     },
   );
